@@ -118,6 +118,16 @@ func (s *h) Threads() []func() {
 			case "n":
 				_, err := fw.Write(rec(st.seq, fmt.Sprintf("k%d", st.seq)), nil, nil)
 				s.werr[st.seq] = err
+			case "wait":
+				// wait for every acknowledgement requested so far BEFORE Close (Close syncs and
+				// acknowledges the last index itself, which would hide a lost wake-up)
+				for _, st2 := range s.sc.steps {
+					if st2.kind == "w" && s.werr[st2.seq] == nil {
+						if _, started := s.werr[st2.seq]; started {
+							s.wgs[st2.seq].Wait()
+						}
+					}
+				}
 			case "s0":
 				s.swErr = append(s.swErr, fw.Switch(0))
 			case "s1":
@@ -248,14 +258,16 @@ func TestCheck(t *testing.T) {
 		N := func(q uint64) step { return step{"n", q} }
 		S1, S0 := step{kind: "s1"}, step{kind: "s0"}
 		sc := []d1x.Scenario{
-			mk(scen{name: "w-switch-w", steps: []step{W(10), S1, W(11)}}, 2, 3, 3),
-			mk(scen{name: "w-w-switch", steps: []step{W(10), W(11), S1}}, 2, 3, 2),
-			mk(scen{name: "switch-w-w", steps: []step{S1, W(10), W(11)}}, 2, 2, 1),
-			mk(scen{name: "w-switch-w-switchback-w", steps: []step{W(10), S1, W(11), S0, W(12)}}, 1, 2, 2),
-			mk(scen{name: "nosync-switch-w", steps: []step{N(10), S1, W(11)}}, 2, 2, 1),
-			mk(scen{name: "w-switch-w-errors", steps: []step{W(10), S1, W(11)}, errs: true}, 2, 3, 3),
-			mk(scen{name: "w-switch-w-walsync-format", steps: []step{W(10), S1, W(11)}, wsync: true}, 1, 2, 1),
-			mk(scen{name: "no-switch-2w", steps: []step{W(10), W(11)}}, 1, 2, 1),
+			mk(scen{name: "w-switch-w", steps: []step{W(10), S1, W(11)}}, 0, 1, 3),
+			mk(scen{name: "w-w-switch", steps: []step{W(10), W(11), S1}}, 0, 1, 2),
+			mk(scen{name: "switch-w-w", steps: []step{S1, W(10), W(11)}}, 0, 1, 1),
+			mk(scen{name: "w-switch-w-switchback-w", steps: []step{W(10), S1, W(11), S0, W(12)}}, -1, 0, 2), // thorough only: two switches, ~60 000 hand-off orders
+			mk(scen{name: "nosync-switch-w", steps: []step{N(10), S1, W(11)}}, 0, 1, 1),
+			mk(scen{name: "w-switch-w-errors", steps: []step{W(10), S1, W(11)}, errs: true}, 0, 1, 3),
+			mk(scen{name: "w-switch-w-walsync-format", steps: []step{W(10), S1, W(11)}, wsync: true}, 0, 1, 1),
+			mk(scen{name: "no-switch-2w", steps: []step{W(10), W(11)}}, 2, 3, 1),
+			mk(scen{name: "2w-wait-acks-then-close", steps: []step{W(10), W(11), {kind: "wait"}}}, 2, 3, 2),
+			mk(scen{name: "w-switch-w-wait-acks", steps: []step{W(10), S1, W(11), {kind: "wait"}}}, 1, 1, 4),
 		}
 		d1x.Run(t, c, sc)
 	})
